@@ -274,6 +274,10 @@ def corpus():
           f('dl/setup.exe~', ['r', 87, 22], 1_420_000_300), f('dl/setup.exe.bak', ['r', 88, 23], 1_420_000_400)]
     out.append({'root': 'T', 'files': tp, 'scraped': [['a%d' % i, ['o', i], None] for i in (1, 2, 3, 4)] + [['b0', ['o', 0], None]]})
     out.append({'root': 'T', 'files': tp, 'scraped': [['a0', ['o', 0], None]] + [['b%d' % i, ['o', i], None] for i in (1, 2, 3, 4)]})
+    # top-level names that LOOK like drive-qualified or rooted Windows paths but are plain file names here
+    wn = [f('x:ray.dat', ['r', 91, 30], 1_430_000_000), f('1:1 meeting notes.txt', ['r', 92, 31], 1_430_000_100), f('\\\\lead.bin', ['r', 93, 32], 1_430_000_200),
+          f('sub/2:30pm.txt', ['r', 94, 33], 1_430_000_300), f('..cache/blob', ['r', 95, 34], 1_430_000_400)]
+    out.append({'root': 'T', 'files': wn, 'scraped': [['%d.chk' % i, ['o', i], None] for i in range(5)]})
     # folder layouts and a used output folder (see exec_case)
     out.append({'root': 'T', 'files': base, 'scraped': flat, 'layout': 'sibling', 'oroot': 'recup'})
     out.append({'root': 'T', 'files': base, 'scraped': flat, 'prefill': 'mtime'})
